@@ -28,6 +28,7 @@ vars == <<src, req, s, pc, hm>>
 Ids == 0 .. NG - 1
 
 NHMsAll == 1 .. NG
+NHMsMid == {(NG + 1) \div 2}     \* glyphs on both sides of numberOfHMetrics (every value is explored with NG = 4)
 
 RECURSIVE SeqsOfLen(_, _)
 SeqsOfLen(S, k) == IF k = 0 THEN {<<>>} ELSE {Append(q, x) : q \in SeqsOfLen(S, k - 1), x \in S}
